@@ -400,12 +400,39 @@ def check_c05(run: Run) -> None:
                 elif da.units and not (eo.op == 'frame' and lab in ('INDEX-MIN', 'INDEX-MAX', 'SPACING')):
                     run.v('C05', 'unassigned-units-present', 'unassigned-units:' + lab,
                           f'lf {lfi} {eo.set_type} {eo.name!r} {lab}: units never assigned, decoded {da.units!r}')
+                elif da.units and eo.op == 'frame' and not (da.absent or da.omitted):
+                    # documented default: the index attributes take the units of the index channel -- as they are NOW
+                    want_units = _index_channel_units(run, eo)
+                    if want_units is not None:
+                        run.obs['default-index-units-checked'] += 1
+                        if da.units != want_units:
+                            run.v('C05', 'default-value', 'default:index-units',
+                                  f'lf {lfi} FRAME {eo.name!r} {lab}: units {da.units!r}, the index channel has {want_units!r}')
             # labels decoded that the schema does not know
             known = set(eo.attrs) | set(schema.TYPES[eo.op].get('derived', []))
             for lab, da in do.attrs.items():
                 if lab not in known and not (da.absent or da.omitted or da.values is None):
                     run.v('C05', 'unknown-label-with-value', 'unknown-label:' + lab,
                           f'{eo.set_type} {eo.name!r}: {lab} = {da.values!r}')
+
+
+def _index_channel_units(run, eo):
+    """Current units of the first channel of frame `eo` per the expected model ('' if none); None if unknown."""
+    fop = run.spec['ops'][eo.op_index]
+    cv, _, _ = expect.interpret('frame', 'channels', fop.get('attrs', {}).get('channels'))
+    if isinstance(cv, dict) and '$tuple' in cv:
+        cv = cv['$tuple']
+    if not cv:
+        return None
+    ci = cv[0].get('$ref')
+    for el in run.exp:
+        for o in el.objects:
+            if o.op_index == ci:
+                a = o.attrs.get('UNITS')
+                if a is None:
+                    return None
+                return a.value if (a.assigned and a.value is not None) else ''
+    return None
 
 
 def check_default(run, eo, lab, da, lfi):
@@ -946,6 +973,18 @@ def check_c09(run: Run) -> None:
                 if eor and do.name[2] != eor[0].name:
                     run.v('C09', 'defining-origin-identity', 'defining-origin-identity',
                           f'lf {lfi}: first ORIGIN object is {do.name}, first origin added was {eor[0].name!r}')
+        defined = set()
+        for k, x in dl.sequence:
+            if k == 'E':
+                for o in x.objects:
+                    defined.add((x.type,) + tuple(o.name))
+            else:
+                key = ('FRAME' if x.type == 0 else 'NO-FORMAT',) + tuple(x.ref)
+                run.obs['c09-iflr-position-checked'] += 1
+                if key not in defined:
+                    run.v('C09', 'iflr-before-object', 'iflr-before-object',
+                          f'lf {lfi}: data record (type {x.type}) refers to {key}, which is not defined before it')
+                    break
         seen = set()
         data_started = False
         for k, x in seq[i:]:
